@@ -188,6 +188,7 @@ class Prop(object):
     shrink = {'quick': True, 'thorough': True}
     shards = {'quick': NSHARDS, 'thorough': NSHARDS}
     timeout = {'quick': 900, 'thorough': 6 * 3600}   # safety net only -> exit 2
+    fuzz = {}                      # tier -> number of atheris executions (secondary engine)
 
     def strategy(self, tier):
         return None
@@ -449,6 +450,24 @@ def run_property(prop_id, tier, seed):
             elif r['status'] == 'violation':
                 violations.append(r['violation'])
         merged = merge(results)
+        fuzz_extra = None
+        n_fuzz = int(getattr(prop, 'fuzz', {}).get(tier, 0) or 0)
+        if n_fuzz and not harness and not violations:
+            fr = run_fuzz(prop_id, n_fuzz, seed, work, env, max(60.0, deadline - time.time()))
+            if fr.get('status') == 'error':
+                harness.append('atheris driver: %s\n%s' % (fr.get('error'), fr.get('traceback', '')))
+            else:
+                if fr.get('status') == 'violation':
+                    violations.append(fr['violation'])
+                results.append(dict(ctx=fr['ctx']))
+                merged = merge(results)
+                fuzz_extra = dict(atheris=dict(executions=fr.get('executions', 0),
+                                               decoded_cases=fr.get('decoded', 0),
+                                               evaluations=fr['ctx']['evaluations'],
+                                               wall_s=round(fr.get('wall_s', 0.0), 1),
+                                               note='libFuzzer byte strings decoded by '
+                                                    'hypothesis.fuzz_one_input into the same strategy; '
+                                                    'same predicate; numdifftools instrumented'))
         if not harness:
             for v in prop.finalize(merged, tier) or []:
                 key = prop.finding_key(None, v)
@@ -460,7 +479,7 @@ def run_property(prop_id, tier, seed):
                 violations.append(dict(replay=path, clause=v.clause, message=v.message))
         wall = time.time() - t0
         if results:
-            write_evidence(prop, tier, seed, merged, wall, len(violations), known_lines)
+            write_evidence(prop, tier, seed, merged, wall, len(violations), known_lines, fuzz_extra)
         seen = set()
         for v in violations:
             if v['replay'] in seen:
@@ -484,6 +503,28 @@ def run_property(prop_id, tier, seed):
         return EXIT_OK
     finally:
         shutil.rmtree(work, ignore_errors=True)
+
+
+def run_fuzz(prop_id, runs, seed, work, env, timeout):
+    """Run the atheris driver in a child process with a fresh corpus directory."""
+    out = os.path.join(work, 'fuzz.json')
+    corpus = os.path.join(work, 'corpus')
+    os.makedirs(corpus, exist_ok=True)
+    cmd = [sys.executable, '-m', 'nverif.fuzz.driver', prop_id, '--runs', str(runs), '--seed', str(seed),
+           '--out', out, '--corpus', corpus]
+    log = open(os.path.join(work, 'fuzz.log'), 'w')
+    try:
+        p = subprocess.Popen(cmd, env=env, cwd=ROOT, stdout=log, stderr=log)
+        try:
+            p.wait(timeout=timeout)
+        except subprocess.TimeoutExpired:
+            p.kill()
+    finally:
+        log.close()
+    if not os.path.exists(out):
+        return dict(status='error', error='atheris driver produced no output: %s'
+                    % open(os.path.join(work, 'fuzz.log')).read()[-1500:])
+    return json.load(open(out))
 
 
 def replay_file(path):
